@@ -1261,7 +1261,7 @@ theorem handleData_pres (e : Engine) (bs : Bytes) : Pres e (e.handleData bs).1 :
   · split
     · exact (Pres.refl e).halt
     · simp only []
-      have h1 : Pres e { e with dec := (decodeBytes { version := e.cfg.version, maxSize := e.cfg.connect.maximumPacketSize.getD maxPacket } e.dec bs).dec } :=
+      have h1 : Pres e { e with dec := (decodeBytes { version := e.cfg.version, maxSize := e.inboundMax } e.dec bs).dec } :=
         Pres.of_core_eq rfl
       split
       · exact h1.halt
